@@ -45,8 +45,7 @@ Record Inv (w : world) : Prop := mkInv {
   inv_downs_nodup : forall m, NoDup (map d_id (c_down (w_cl w m)));
   inv_queue : forall m a, In a (c_queue (w_cl w m)) -> action_ok w m a;
   inv_timers : forall t, In t (w_timers w) ->
-            t_up t < w_nup w /\ t_group t = uo_group (w_up w (t_up t)) /\
-            ~ In (uo_owner (w_up w (t_up t))) (t_cs t);
+            t_up t < w_nup w /\ t_group t = uo_group (w_up w (t_up t));
   inv_replace : forall u, u < w_nup w -> uo_replace (w_up w u) <> 0 ->
             ended w (uo_replace (w_up w u));
   inv_nogroup : forall c, c_group (w_cl w c) = None ->
@@ -434,8 +433,8 @@ Proof.
   - destruct (Q m) as [_ [_ [E _]]]. rewrite E in H.
     eapply action_ok_mono; [exact Hle|]. auto.
   - change (w_timers (remove_close c id u w)) with (w_timers w) in H.
-    destruct (Itimers t H) as [T1 [T2 T3]]. destruct (P (t_up t)) as [_ [E2 [E3 _]]].
-    rewrite E2, E3. repeat split; auto.
+    destruct (Itimers t H) as [T1 T2]. destruct (P (t_up t)) as [_ [E2 [E3 _]]].
+    rewrite E3. repeat split; auto.
   - destruct (P u0) as [_ [_ [_ [E4 _]]]]. rewrite E4 in *. apply Hend. apply Ireplace; auto.
   - destruct (Q c0) as [G [D [_ [_ [Pr [R E]]]]]]. rewrite G in H. rewrite D, Pr, R, E.
     destruct (Inogroup c0 H) as [A [B [C DD]]]. repeat split; auto.
@@ -560,7 +559,7 @@ Proof.
     autorewrite with sub. simpl. rewrite E1, E2, E3. apply Idowns. assumption.
   - eauto.
   - eapply action_ok_mono; [exact Hle|]. auto.
-  - destruct (P (t_up t)) as [_ [E2 [E3 _]]]. simpl in *. rewrite E2, E3. eauto.
+  - destruct (P (t_up t)) as [_ [E2 [E3 _]]]. simpl in *. rewrite E3. eauto.
   - eapply ended_mono; [exact Hle|]. destruct (Nat.eqb_spec u x).
     + subst. simpl in *. exact He.
     + apply Ireplace; auto.
@@ -653,14 +652,14 @@ Proof.
     unfold down_ok. rewrite N, E1, E2, E3, G. repeat split; auto.
   - destruct (Q m) as [_ [D _]]. rewrite D. apply Inodup.
   - destruct (Q m) as [_ [_ [E _]]]. rewrite E in H. eapply action_ok_mono; [exact Hle|]. auto.
-  - assert (Ht : In t (w_timers w) \/ t = mkTimer u g (others w g c)).
+  - assert (Ht : In t (w_timers w) \/ t = mkTimer u g).
     { unfold w', new_up_conn, new_timer in H. simpl in H. apply in_app_iff in H.
       destruct H as [H|[H|[]]]; auto. }
     rewrite N. destruct Ht as [Ht|Ht].
-    + destruct (Itimers t Ht) as [T1 [T2 T3]].
+    + destruct (Itimers t Ht) as [T1 T2].
       assert (t_up t <> u) by (unfold u; lia). destruct (Pold _ H0) as [_ [E2 [E3 _]]].
-      rewrite E2, E3. repeat split; auto.
-    + subst t. cbn [t_up t_group t_cs]. rewrite N2, N3. repeat split; auto. apply not_in_others.
+      rewrite E3. repeat split; auto.
+    + subst t. cbn [t_up t_group]. rewrite N3. repeat split; auto.
   - rewrite N in H. eapply ended_mono; [exact Hle|]. destruct (Nat.eqb_spec u0 u) as [e0|n].
     + rewrite e0 in H0. rewrite N5 in H0. congruence.
     + destruct (Pold u0 n) as [_ [_ [_ [_ [E5 _]]]]]. rewrite E5 in *. apply Ireplace; auto. unfold u in *; lia.
@@ -1112,7 +1111,7 @@ Proof.
     rewrite E1, E2, E3. apply Idowns. assumption.
   - eauto.
   - eapply action_ok_mono; [exact Hle|]. auto.
-  - destruct (P (t_up t)) as [_ [E2 [E3 _]]]. rewrite E2, E3. eauto.
+  - destruct (P (t_up t)) as [_ [E2 [E3 _]]]. rewrite E3. eauto.
   - eapply ended_mono; [exact Hle|]. destruct (P u) as [_ [_ [_ [_ [E5|E5]]]]].
     + rewrite E5 in *. apply Ireplace; auto.
     + congruence.
@@ -1124,10 +1123,9 @@ Qed.
 Lemma Inv_fire_timer : forall w t,
   Inv w ->
   t_up t < w_nup w -> t_group t = uo_group (w_up w (t_up t)) ->
-  ~ In (uo_owner (w_up w (t_up t))) (t_cs t) ->
   Inv (fire_timer t w).
 Proof.
-  intros w t I T1 T2 T3. unfold fire_timer.
+  intros w t I T1 T2. unfold fire_timer.
   destruct (uo_pushed (w_up w (t_up t))); [exact I|].
   set (f := fun o => up_set_replace 0 (up_set_pushed true o)).
   assert (I2 : Inv (upd_up (t_up t) f w)).
@@ -1136,18 +1134,18 @@ Proof.
   apply Inv_enq_all; [exact I2|]. intros m Hm. simpl.
   rewrite Nat.eqb_refl. unfold f. simpl. repeat split; auto.
   - exists []. rewrite app_nil_r. reflexivity.
-  - intro E. apply T3. rewrite E. exact Hm.
+  - intro E. rewrite E in Hm. apply (not_in_others _ _ _ Hm).
   - intro Hr. pose proof (inv_replace _ I (t_up t) T1 Hr) as He.
     destruct He as [v [Hv [Hid Hc]]]. exists v. simpl. repeat split; auto.
     + destruct (Nat.eqb v (t_up t)); simpl; auto.
     + destruct (Nat.eqb v (t_up t)); simpl; auto.
 Qed.
 
-Lemma Inv_new_timer : forall w u g cs,
-  Inv w -> u < w_nup w -> g = uo_group (w_up w u) -> ~ In (uo_owner (w_up w u)) cs ->
-  Inv (new_timer u g cs w).
+Lemma Inv_new_timer : forall w u g,
+  Inv w -> u < w_nup w -> g = uo_group (w_up w u) ->
+  Inv (new_timer u g w).
 Proof.
-  intros w u g cs I Hu Hg Hcs. unfold new_timer.
+  intros w u g I Hu Hg. unfold new_timer.
   assert (I2 : Inv (upd_up u (up_set_pushed false) w)).
   { apply Inv_upd_up_light; auto. intro o. simpl. repeat split; auto. exists []. rewrite app_nil_r. reflexivity. }
   destruct I2 as [Iids Iidnz Iups Ialive Idowns Inodup Iqueue Itimers Ireplace Inogroup Idead Iupsnd].
@@ -1177,7 +1175,7 @@ Proof.
       apply (inv_queue _ I). rewrite Eq. left. reflexivity.
   - destruct (Nat.ltb c (w_n w) && negb (c_dead (w_cl w c))); [apply Inv_error_close|]; exact I.
   - destruct (nth_error (w_timers w) i) as [t|] eqn:E; [|exact I].
-    apply nth_error_In in E. destruct (inv_timers _ I t E) as [T1 [T2 T3]].
+    apply nth_error_In in E. destruct (inv_timers _ I t E) as [T1 T2].
     apply Inv_fire_timer; auto.
     apply Inv_set_timers; [exact I|]. intros x Hx. eapply in_remove_nth. exact Hx.
   - destruct (Nat.ltb u (w_nup w) && negb (uo_closed (w_up w u))) eqn:E; [|exact I].
@@ -1186,8 +1184,7 @@ Proof.
     assert (I2 : Inv (upd_up u (up_add_track k) w)).
     { apply Inv_upd_up_light; auto. intro o. simpl. repeat split; auto. exists [k]. reflexivity. }
     apply Inv_new_timer; auto.
-    + simpl. rewrite Nat.eqb_refl. reflexivity.
-    + simpl. rewrite Nat.eqb_refl. simpl. apply not_in_others.
+    simpl. rewrite Nat.eqb_refl. reflexivity.
 Qed.
 
 Lemma Inv_init : forall n, Inv (init n).
